@@ -59,6 +59,20 @@ def run(ctx):
         ctx.need(len(number_style) >= 1 and len(float_style) == 1, "the two conversion families were not identified (number-style %d, parseFloat-style %d)" % (len(number_style), len(float_style)))
         # the number-style entry is the one the arithmetic operators call (others are its helpers)
         pf = float_style[0]
+        # parseFloat ignores leading white space: the prefix scan of the string form runs over the trimmed text
+        pf_bodies = [facts.body(k) for k in sorted(facts.reach([pf.key])) if facts.body(k) is not None and not any(k == x.key for x in number_style)]
+        scans = []
+        for xb in pf_bodies:
+            for bi, t in xb.calls():
+                if callee_path(t) == "core::str::<impl str>::chars":
+                    src = strip_refs(xb.xtrace(t["args"][0]))
+                    if expr_mentions(src, lambda y: y[0] == "arg" or y[0] == "carg"):
+                        scans.append((xb, bi, expr_mentions(src, lambda y: y[0] == "call" and y[1] and re.search(r"::trim(_start|_matches|_start_matches)?$", y[1]["path"]) is not None)))
+        if scans:
+            for xb, bi, trimmed in scans:
+                if xb.key.startswith(pf.key) or "String" in str(facts.items.get(xb.key, {}).get("inputs")):
+                    ctx.check(trimmed, "K4.parsefloat-skips-leading-space", "the parseFloat-style prefix scan runs over the trimmed text (%s)" % cfg,
+                              "the parseFloat-style conversion scans the untrimmed string: \" 12\" would not be 12", where=xb.where(bi), fn=xb.key, nontrivial=True)
         for op in OPS:
             b, e = roles.fn_of(op)
             u = Unit(roles, b.key, extended=True, stop=[tnv.key, s2n.key, pf.key] + [x.key for x in number_style])
